@@ -31,7 +31,7 @@ def clause_a(facts, rep, sanitize):
         bad = None
         n = 0
         try:
-            from ..minterp import Interp, Unsupported
+            from ..minterp import Interp, Unsupported, UndefinedBehaviour
             others = [0, 1, 31, 2048, 4063, 4064, 4065, 4095]
             it = Interp(f, facts)
             for oa in range(4096):
@@ -39,7 +39,11 @@ def clause_a(facts, rep, sanitize):
                     # both address orders: the operand near the end of its page may be the lower or the higher one
                     for pa, pb in ((0x10000, 0x30000), (0x50000, 0x20000)):
                         n += 1
-                        got = it.run({env_ids['a']: pa + oa, env_ids['b']: pb + ob}, {})[0]
+                        try:
+                            got = it.run({env_ids['a']: pa + oa, env_ids['b']: pb + ob}, {})[0]
+                        except UndefinedBehaviour as ex:
+                            bad = (oa, ob, 'undefined behaviour: %s' % ex)
+                            break
                         if got and (oa + 32 > 4096 or ob + 32 > 4096):
                             bad = (oa, ob, 'a below b' if pa < pb else 'a above b')
                             break
